@@ -119,9 +119,17 @@ class GL:
         if o == "vidx":
             return M.Index(e, self.index(t[2]), ("s", t[1]))
         if o == "vswz":
-            return M.Member(e, self.pick((XYZW if self.chance(60) else RGBA)[:t[2]]), ("s", t[1]))
+            letters = XYZW if self.chance(60) else RGBA
+            if self.chance(6):
+                # a selector the vector may not have: the front end has to fence it off
+                self.features.add("possibly-out-of-range-selector")
+                return M.Member(e, self.pick(letters), ("s", t[1]))
+            return M.Member(e, self.pick(letters[:t[2]]), ("s", t[1]))
         if o == "vmask":
             letters = list((XYZW if self.chance(60) else RGBA)[:t[2]])
+            if self.chance(5) and t[2] < 4:
+                self.features.add("possibly-out-of-range-selector")
+                letters = list(XYZW if self.chance(50) else RGBA)
             mask = ""
             for _ in range(shape[1]):
                 ch = self.pick(letters)
@@ -138,7 +146,8 @@ class GL:
         if o == "sswz":
             self.features.add("scalar-swizzle")
             n = 1 if shape == ("S",) else shape[1]
-            return M.Member(e, "x" * n, t if n == 1 else ("v", t[1], n))
+            ch = "x" if self.chance(75) else self.pick("rxygb")
+            return M.Member(e, ch * n, t if n == 1 else ("v", t[1], n))
         _, ft, fn = o
         return self.derive(M.Member(e, fn, ft), ft, shape, d - 1, writable)
 
